@@ -27,6 +27,11 @@ class RequestResponseRequester(StreamHandler, Requester):
         return self._future
 
     def frame_received(self, frame: Frame):
+        if self._future.done():
+            # Cancelled by the application while the response was in flight: the done-callback
+            # sends CANCEL and releases the stream. Resolving the future again would raise.
+            return
+
         if isinstance(frame, PayloadFrame):
             self._future.set_result(payload_from_frame(frame))
             self._finish_stream()
